@@ -155,6 +155,7 @@ def run(facts, rep, tier):
     nominal(F, rep)
     ctxscope(F, rep, chk)
     nameeq(F, rep, chk)
+    subspan(F, rep)
 
     # ---- 6 ARGTYPES --------------------------------------------------------------------------------------
     cc = F.one_fn("check_call")
@@ -468,3 +469,64 @@ def nameeq(F, rep, chk):
                                 "(e.g. a match arm for `NotEq` would cover a missing `Eq`)" % (fn_s, last),
                                 file=f.file, line=t.get("ln"), fn=p))
     rep.floor("NAMEEQ", "substring-style string tests in the checker", n, 2)
+
+
+# ---------------------------------------------------------------------------------------------------------------
+def subspan(F, rep):
+    """SUBSPAN — a parser function that lexes and parses a SUBSTRING of the source again (f-string interpolations)
+    produces spans relative to that substring. For the diagnostics on the embedded sub-AST to be located in the file,
+    the function must know where the substring starts: it has to receive a base offset / span (a `usize` or `Span`
+    parameter that it uses), or its caller has to hand the sub-AST together with a span to a rebasing function. A
+    nested-lexing function with only the substring as input cannot produce file-relative spans."""
+    n = 0
+    for p, f in sorted(F.fns.items()):
+        if not p.startswith("incan_syntax::parser") or "{closure" in p:
+            continue
+        nested = [t for _, t in f.calls() if (callee_name(t) or "") == "incan_syntax::lexer::lex"]
+        if not nested:
+            continue
+        n += 1
+        rep.functions.add(p)
+        # parameters that can carry a position: usize / Span (by value or by reference)
+        pos_params = [l for l in range(1, f.argc + 1)
+                      if f.local_ty(l).replace("&", "").strip() in ("usize", "incan_syntax::ast::Span")]
+        used = False
+        for l in pos_params:
+            for bi, si, pl, how in iter_read_places(f):
+                if pl["l"] == l and how != "write":
+                    used = True
+        # or: a caller rebases — passes the result and a span to something other than the Spanned constructor
+        rebased_by_caller = False
+        for q, g in F.fns.items():
+            if not q.startswith("incan_syntax::parser"):
+                continue
+            for bi, t in g.calls():
+                if (callee_name(t) or "") != p or t["d"]["p"]:
+                    continue
+                res = derived_of(g, t["d"]["l"])
+                for b2, t2 in g.calls():
+                    cn = callee_name(t2) or ""
+                    if cn.endswith("Spanned::<T>::new") or cn == p:
+                        continue
+                    tys = [g.local_ty(op_place(o)["l"]) if op_place(o) is not None and not op_place(o)["p"] else ""
+                           for o in t2["args"]]
+                    has_res = any(op_place(o) is not None and op_place(o)["l"] in res for o in t2["args"])
+                    has_pos = any(x.replace("&", "").strip() in ("usize", "incan_syntax::ast::Span") for x in tys)
+                    if has_res and has_pos:
+                        rebased_by_caller = True
+        ok = used or rebased_by_caller
+        short = p.split("::")[-1]
+        rep.oblige("SUBSPAN", short, ok, sample={"rule": "SUBSPAN", "fn": p, "position_parameters": len(pos_params),
+                                                 "uses_base_offset": used, "caller_rebases": rebased_by_caller})
+        if not ok:
+            rep.add(Finding("SUBSPAN", "SUBSPAN|%s" % short,
+                            "%s lexes and parses a substring of the source again but receives no base offset and its "
+                            "caller does not rebase the result: every span inside the embedded expression is relative "
+                            "to the substring, so a diagnostic on it points at the wrong place (offset 5 of the "
+                            "interpolation becomes offset 5 of the file)" % short, file=f.file, line=f.line, fn=p))
+    rep.floor("SUBSPAN", "parser functions that lex a substring again", n, 1)
+
+
+def derived_of(g, l):
+    from engines import derived_locals
+    return derived_locals(g, l)
